@@ -26,14 +26,14 @@ type genStream struct {
 }
 
 type genOpts struct {
-	Client    bool // endpoint under test is a client (so the peer's frames are unmasked)
-	Flate     bool
-	Takeover  bool // the peer→endpoint direction keeps context
-	MaxMsgs   int
-	MaxSize   int
-	CtlProb   float64
-	BFinalProb float64
-	Sizes     []int // if set, message sizes are drawn from here
+	Client          bool // endpoint under test is a client (so the peer's frames are unmasked)
+	Flate           bool
+	Takeover        bool // the peer→endpoint direction keeps context
+	MaxMsgs         int
+	MaxSize         int
+	CtlProb         float64
+	BFinalProb      float64
+	Sizes           []int // if set, message sizes are drawn from here
 	ForceCompressed bool
 }
 
